@@ -268,6 +268,16 @@ def run_item(ctx, item):
         f2 = [f for f in feats if f not in ("pickup", "ts_changes")] + (["clefs"] if rng.random() < 0.5 else [])
         p, _ = gen_score.make_part(rng, f"P{i + 1}", features=f2, divs=rng.choice(cands), skeleton=meta0["skeleton"])
         parts.append(p)
+    if rng.random() < 0.4:
+        # layout: system and page breaks in every part (each staff of a printed score restates them); only those of the first
+        # part may arrive in the merged part, under every way of renumbering
+        for p_ in parts:
+            last_ = int(p_.last_point.t)
+            for k_, t_ in enumerate(sorted(rng.sample(range(0, max(2, last_)), min(max(2, last_), rng.randint(1, 3))))):
+                p_.add(S.System(k_ + 1), t_)
+                if rng.random() < 0.4:
+                    p_.add(S.Page(k_ + 1), t_)
+        ctx.extra["merges_with_system_and_page_breaks_in_every_part"] += 1
     if rng.random() < 0.2:
         # parts need not have distinct ids (the first parts of two separately loaded files are both "P1")
         parts[rng.randrange(1, len(parts))].id = parts[0].id
